@@ -404,7 +404,7 @@ func gen(r *hxlib.Run, emit func(hxlib.Case)) {
 	for i := 0; i < r.Budget(2, 8); i++ {
 		add("timeout", genScenario(r.Rng, "timeout"))
 	}
-	n := r.Budget(420, 9000)
+	n := r.Budget(800, 12000)
 	for i := 0; i < n; i++ {
 		var k string
 		switch x := r.Rng.Intn(10); {
